@@ -61,11 +61,13 @@ func (c *queryCache) get(key uint64, endpoint string) (v any, ok bool) {
 	ce, ok = c.entries[key]
 	if !ok {
 		c.endpointStats(endpoint).miss()
+		verifCache("miss", key)
 		return v, ok
 	}
 
 	ce.lastGet = c.now()
 	c.endpointStats(endpoint).hit()
+	verifCache("hit", key)
 
 	return ce.data, true
 }
@@ -84,6 +86,7 @@ func (c *queryCache) set(key uint64, val any, ttl time.Duration) {
 	if ttl > 0 {
 		c.entries[key].expiresAt = c.now().Add(ttl)
 	}
+	verifCache("set", key)
 }
 
 func (c *queryCache) gc() {
@@ -96,6 +99,7 @@ func (c *queryCache) gc() {
 	for key, ce := range c.entries {
 		if (!ce.expiresAt.IsZero() && ce.expiresAt.Before(now)) || now.Sub(ce.lastGet) >= c.maxStale {
 			c.evictions++
+			verifCache("evict", key)
 			continue
 		}
 		entries[key] = ce
